@@ -42,6 +42,13 @@ def apply_recipe(root: Path, relpath: str, qualname: str, old: str, new: str) ->
     def find(body, names):
         for st in body:
             if isinstance(st, (ast.FunctionDef, ast.ClassDef, ast.AsyncFunctionDef)) and st.name == names[0]:
+                is_setter = isinstance(st, ast.FunctionDef) and any(isinstance(d, ast.Attribute) and d.attr == 'setter' for d in st.decorator_list)
+                if names[1:] == ['setter']:
+                    if is_setter:
+                        return st
+                    continue
+                if is_setter:
+                    continue
                 if len(names) == 1:
                     return st
                 return find(st.body, names[1:])
@@ -168,7 +175,7 @@ def run_selfval(prop: str, rule_ids: List[str], base_clean: bool, src_root: Opti
                 continue
             jid = f'seed:{d.name}'
             work.append({'id': jid, 'kind': 'fire', 'src_root': src_root, 'patch': str(d / 'patch.diff'), 'rules': list(rule_ids)})
-            expect[jid] = {'kind': 'fire', 'expect_rule': None}
+            expect[jid] = {'kind': 'fire', 'expect_rule': None, 'allow_undecided': meta.get('checker_outcome') == 'undecided'}
     refs = VERIF / 'refactors'
     if refs.is_dir():
         for d in sorted(refs.iterdir()):
@@ -196,6 +203,9 @@ def run_selfval(prop: str, rule_ids: List[str], base_clean: bool, src_root: Opti
             if ok:
                 n_fire += 1
                 row['verdict'] = 'fired as required'
+            elif res['errors'] and exp.get('allow_undecided'):
+                n_undecided += 1
+                row['verdict'] = 'fails closed as recorded: the variant replaces the analysed algorithm, the check exits 2 (undecided), never 0'
             elif res['errors']:
                 n_undecided += 1
                 row['verdict'] = 'not reported: the analysis could not decide (ANALYSIS-ERROR on the variant)'
